@@ -111,7 +111,8 @@ class Impl:
         # the last telecommand (and the never registered number 0) carries sequence flags FIRST_SEGMENT - a header only the
         # alternate constructor (or a decoder) produces; the request ID is the first four header octets whatever they are
         self.flags = {t: (1 if t in (0, ntc) else 3) for t in range(0, ntc + 1)}
-        self.tcs = {t: (PusTc(service=17, subservice=1, apid=APID, seq_count=SEQ0 + t) if self.flags[t] == 3 else
+        # telecommand 1 asks for no acknowledgements at all (ack flags 0): what the tracker records does not depend on them
+        self.tcs = {t: (PusTc(service=17, subservice=1, apid=APID, seq_count=SEQ0 + t, ack_flags=0b0000 if t == 1 else 0b1111) if self.flags[t] == 3 else
                         PusTc.from_sp_header(SpacePacketHeader(PacketType.TC, APID, SEQ0 + t, 0, True, SequenceFlags(self.flags[t])), 17, 1))
                     for t in range(0, ntc + 1)}
         self.tcs_dec = {}
